@@ -100,7 +100,13 @@ def sym_wellformed(inp, part):
         if c == 255 and cmd != 0:
             raise Reject
         t = inp.int("t", 0, 9)
-        p = inp.str("p", 1, exclude=LINE_TERMINATORS, no_trailing_ws=True)
+        if cmd == 0 and c == 255 and n == 0:
+            # gateway presentation = version report: version texts are a class list (a symbolic string
+            # cannot go through functools.cache / the version parser)
+            vt = PAYLOADS[14:]
+            p = vt[inp.pick("vt", len(vt))]
+        else:
+            p = inp.str("p", 1, exclude=LINE_TERMINATORS, no_trailing_ws=True)
     line = M.line(n, c, cmd, 0, t, p)
     kind, val, _wr = w.feed(line)
     r = _classify(kind, val, line)
